@@ -335,8 +335,9 @@ def check_index(mir, res, rule):
     res.floor("table reader/writer pairs", n, 2)
 
 
-def check_kinds(ctx, syn, efile, ts, res, rule, prule):
+def check_kinds(ctx, syn, efile, ts, res, rule, prule, mir=None):
     from .c05 import is_index
+    mir = mir or Mir(ctx["facts"]["mir"])
     fmt = [t for t in ts if t.is_format]
     for t in fmt:
         if t.tokens is None:
@@ -362,10 +363,21 @@ def check_kinds(ctx, syn, efile, ts, res, rule, prule):
             if chain_txt is not None:
                 if re.match(r"^self\.file\.(terminal_enum\.variants|nonterminals)\.iter\.enumerate\.map$", chain_txt):
                     ok = is_index(t, idx)
-                elif re.match(r"^\(?0\.\.self\.(table\.state_count\(\)|get_number_of_rule_kinds\(\))\)?\.map$", chain_txt):
+                elif re.match(r"^\(?0\.\.self\.(table\.state_count\(\)|\w+\(\))\)?\.map$", chain_txt):
                     # closure parameter itself is the position; the variant name must carry the same number
                     name_ph = [p_[1] for p_ in (tk[0].parts if tk[0].k == "mixed" else []) if p_[0] == "ph"]
                     ok = b is not None and bool(name_ph) and name_ph[-1] == idx
+                    mc = re.match(r"^\(?0\.\.self\.(\w+)\(\)\)?\.map$", chain_txt)
+                    if ok and mc:
+                        # the count behind the range is the number of rules: one per struct, one per enum variant
+                        cf = [g for g in mir.fns.values() if g.name == mc.group(1) and g.kind == "AssocFn" and g.file.endswith(efile.rsplit("/", 1)[-1])]
+                        rc = canon(Exprs(cf[0]).local(0)) if len(cf) == 1 else "?"
+                        cls = [canon(Exprs(g).local(0)) for g in mir.fns.values() if g.kind == "Closure" and cf and g.parent == cf[0].key]
+                        okc = (re.match(r"^Iterator::sum\(Iterator::map\(slice::iter\(param1\.file\.nonterminals\), [\w:]+::\{closure#0\}\{\}\)\)$", rc) is not None and len(cls) == 1
+                               and set(cls[0][4:-1].split(" | ")) == {"Vec::len((param2 as Enum).0.variants)", "const(1_usize)"}) or re.match(r"^Iterator::count\(File::get_rules\(param1\.file\)\)$", rc) is not None
+                        res.inst(rule, "rule-count|%s" % mc.group(1), cf[0].where if cf else t.where, True, "%s ; %s" % (rc[:120], cls))
+                        if not okc:
+                            res.violate(rule, "rule-count|%s" % mc.group(1), cf[0].where if cf else t.where, "the number of rule-kind variants must be the number of rules (one per struct, one per enum variant of every declared nonterminal); `%s` computes `%s` %s — a dispatch arm then names a variant that does not exist, or reductions are numbered past the enum" % (mc.group(1), rc[:160], cls))
             res.inst(rule, key, t.where, True, "%s ; discriminant {%s}" % (chain_txt, idx))
             if not ok:
                 res.violate(rule, key, t.where, "kind/state variants must be numbered by their position in the complete list (`%s` with `{%s}`): a table column or row then belongs to another symbol or state" % (chain_txt, idx))
@@ -481,7 +493,7 @@ def run_rules(ctx, res):
     if efile is None:
         res.floor("anchor: emitter file", 0, 1)
     else:
-        check_kinds(ctx, syn, efile, ts, res, KINDS, PAY)
+        check_kinds(ctx, syn, efile, ts, res, KINDS, PAY, mir)
 
 
 def check(ctx):
